@@ -5,10 +5,13 @@
    program; every nat is a thread), every task program (yield, yield-boost, suspend, register,
    spawn run-now / staged, resume of any task) and every choice of the element a pop returns
    (the oracle: FIFO, LIFO, stealing from any queue).
-   Fragment: no yield_to; thread-object recycling and reference counts are not modelled
-   (sched_recycle_fresh is NOT proved: see notes/design/C01.md). *)
+   Thread objects are recycled: `tasks` is indexed by thread OBJECT, every handle carries an object
+   id, reference counts / terminated_items / heaps / rebind are modelled (Model/Sched.v); t, a, b,
+   x below are objects, i is an incarnation (task) number: gid g x = the task x is bound to.
+   Fragment: no yield_to (see notes/design/C01.md). *)
 From Coq Require Import List NArith.
-From Pika Require Import Base.Conc Gen.GenEnums Model.Sched Proofs.SchedProofs.
+From Pika Require Import Base.Conc Gen.GenEnums Model.Sched Proofs.SchedProofs Proofs.SchedWakeProofs
+  Proofs.SchedRecycleProofs.
 Import ListNotations.
 
 (* at most one worker is between a successful pending->active CAS and the matching store for
@@ -19,12 +22,13 @@ Theorem C01_sched_single_runner : forall sched ext a b t,
 Proof. exact sched_single_runner. Qed.
 Print Assumptions C01_sched_single_runner.
 
-(* the phase events of every task, in chronological order, are exactly a prefix of
+(* the phase events of every task (incarnation i; events are keyed by incarnation, so this holds
+   per task across recycling of its object), in chronological order, are exactly a prefix of
    Enter 0, Exit 0, Enter 1, Exit 1, ...: the body is entered for phase 0 at most once, and
    phase k+1 is entered only after phase k returned *)
-Theorem C01_sched_entered_once : forall sched ext t,
+Theorem C01_sched_entered_once : forall sched ext i,
   let g := fst (sched_run sched ext) in
-  phases_of t (rev (log g)) = alt (length (phases_of t (log g))).
+  phases_of i (rev (log g)) = alt (length (phases_of i (log g))).
 Proof. exact sched_entered_once. Qed.
 Print Assumptions C01_sched_entered_once.
 
@@ -67,6 +71,67 @@ Theorem C01_sched_cas_never_fails : forall sched ext a,
 Proof. exact sched_cas_never_fails. Qed.
 Print Assumptions C01_sched_cas_never_fails.
 
+(* recycling: an object that waits for cleanup or sits in a heap — the only objects
+   create_thread_object ever rebinds (new_slot) — is terminated, has reference count 0, and no
+   handle of any kind refers to it: no queue entry, no worker's thrd (wref: from the pop to the
+   release, WRelease included), no waker between its CAS and schedule_thread (holds), no staged
+   retry helper, no helper body (until set_active_state has returned), no do_yield frame.  So
+   no transition through a counted handle of the old task can hit the new one. *)
+Theorem C01_sched_recycle_fresh : forall sched ext x,
+  let c := sched_run sched ext in
+  In x (term (fst c) ++ heap (fst c)) ->
+  x < ntasks (fst c) /\ st (tw_of (fst c) x) = st_terminated /\ rc (fst c) x = 0 /\
+  ~ In x (pend (fst c)) /\
+  (forall a, wref (snd c a) <> Some x /\ ~ holds (snd c a) x) /\
+  (forall b, In b (staged (fst c)) -> href b <> Some x) /\
+  (forall y, y < ntasks (fst c) -> href (todo (tasks (fst c) y)) <> Some x) /\
+  sref (fst c) x = 0 /\
+  NoDup (term (fst c) ++ heap (fst c)).
+Proof. exact sched_recycle_fresh. Qed.
+Print Assumptions C01_sched_recycle_fresh.
+
+(* conversely the count is exact enough: any counted reference (and any worker running the
+   object, any waker about to enqueue it) keeps the count positive and the object out of
+   terminated_items and the heaps — it cannot be rebound under a handle *)
+Theorem C01_sched_refcount_guards : forall sched ext x,
+  let c := sched_run sched ext in
+  (In x (pend (fst c)) \/ (exists a, wref (snd c a) = Some x) \/
+   (exists b, In b (staged (fst c)) /\ href b = Some x) \/
+   (exists y, y < ntasks (fst c) /\ href (todo (tasks (fst c) y)) = Some x) \/
+   1 <= sref (fst c) x \/ (exists a, running (snd c a) x) \/ (exists a, holds (snd c a) x)) ->
+  1 <= rc (fst c) x /\ ~ In x (term (fst c) ++ heap (fst c)).
+Proof. exact sched_refcount_guards. Qed.
+Print Assumptions C01_sched_refcount_guards.
+
+(* an incarnation is bound to at most one object *)
+Theorem C01_sched_gid_inj : forall sched ext x y,
+  let g := fst (sched_run sched ext) in
+  x < ntasks g -> y < ntasks g -> gid g x = gid g y -> x = y.
+Proof. exact sched_gid_inj. Qed.
+Print Assumptions C01_sched_gid_inj.
+
+(* NOT covered by the reference count, and false: "no waker in flight refers to a recycled
+   object".  set_thread_state takes a thread_id_type (no reference; execution_agent::do_resume
+   passes self_.get_thread_id()).  Witness: OS thread 1 loads (suspended,2) of task 0 and is
+   delayed; thread 2 wakes task 0, it terminates, its object is cleaned up and rebound to task 1
+   (tag back to 0), which runs and suspends at (suspended,2) again: the CAS prepared for task 0
+   succeeds on task 1 and task 1 is enqueued (a spurious wake-up, allowed by C02's contract;
+   single runner / entered once are unaffected: the CAS hands over exactly one handle). *)
+Theorem C01_sched_waker_in_flight_stale_refuted :
+  exists sched1 sched2 ext a x prev,
+    let c1 := sched_run sched1 ext in
+    let c2 := sched_run (sched1 ++ sched2) ext in
+    let c3 := sched_run (sched1 ++ sched2 ++ [(a, oP)]) ext in
+    sub_of (snd c1 a) = SCas x prev /\ gid (fst c1) x = 0 /\ tw_of (fst c1) x = prev /\
+    (forall so, In so sched2 -> fst so <> a) /\
+    In (SiteStore, {| st := st_active; tag := 4 |}, {| st := st_terminated; tag := 5 |}) (chain_of 0 (log (fst c2))) /\
+    gid (fst c2) x = 1 /\ ntasks (fst c2) = 1 /\
+    tw_of (fst c2) x = prev /\ ~ In (SiteSet, prev, w_pending prev) (chain_of 1 (log (fst c2))) /\
+    In (SiteSet, prev, w_pending prev) (chain_of 1 (log (fst c3))) /\
+    sub_of (snd c3 a) = SEnq x.
+Proof. exact waker_in_flight_stale_refuted. Qed.
+Print Assumptions C01_sched_waker_in_flight_stale_refuted.
+
 (* ------------------------------------------------------------------ non-vacuity *)
 (* one external submitter (thread 0), workers 1 and 2; the root task yields once, spawns a staged
    child that suspends itself after registering, and a run-now child that yields with
@@ -92,7 +157,7 @@ Proof. vm_compute. repeat split. Qed.
 Example C01_example_stuck : stuck (sched_run (ex_sched 40) ex_ext).
 Proof.
   rewrite (surjective_pairing (sched_run (ex_sched 40) ex_ext)).
-  apply stuck_intro; [vm_compute; reflexivity | vm_compute; reflexivity |].
+  apply stuck_intro; [vm_compute; reflexivity | vm_compute; reflexivity | vm_compute; reflexivity |].
   intros a. destruct a as [|[|[|a]]]; vm_compute; auto.
 Qed.
 
@@ -102,3 +167,16 @@ Example C01_example_accepts :
   forallb (fun t => accepts (chain_of t (log g))) [0; 1; 2] = true /\
   map (fun t => activations (chain_of t (log g))) [0; 1; 2] = [2; 2; 1].
 Proof. vm_compute. split; reflexivity. Qed.
+
+(* recycling really happens in the model: object 0 runs task 0 ([Yield]) to termination, is
+   released (count 0), cleaned up, and rebound to task 1 ([]): one object, two incarnations, each
+   entered once per phase; the premise of C01_sched_recycle_fresh is met on the way *)
+Example C01_example_recycle :
+  let c1 := sched_run rc_sched rc_ext in
+  let c2 := sched_run (rc_sched ++ [(0, oP)] ++ rep 9 (1, oP)) rc_ext in
+  heap (fst c1) = [0] /\ rc (fst c1) 0 = 0 /\ st (tw_of (fst c1) 0) = st_terminated /\
+  ntasks (fst c2) = 1 /\ ninc (fst c2) = 2 /\ term (fst c2) = [0] /\
+  phases_of 0 (rev (log (fst c2))) = [PEnter 0; PExit 0; PEnter 1; PExit 1] /\
+  phases_of 1 (rev (log (fst c2))) = [PEnter 0; PExit 0] /\
+  mon_ok 2 c2 = true.
+Proof. vm_compute. repeat split. Qed.
